@@ -99,6 +99,7 @@ type client struct {
 	prefix  string
 	payload []byte
 	short   bool // sends fewer bytes than the prefix length, then closes
+	stall       bool   // sends part of the prefix and keeps the connection open
 	expectRoute string // live listener registered for the prefix when the connection arrived (cleared if the application closes it later)
 	settled bool // the process was quiescent after this connection arrived and before the mux was stopped
 	pair    *simnet.Pair
@@ -205,6 +206,8 @@ func muxScenario(id string, seed uint64) runner.Result {
 	nconn := 2 + r.Intn(8)
 	stopped := false
 	var reRouteDead []string
+	stallRelease := make(chan struct{})
+	defer close(stallRelease)
 	settle := func() {
 		census.Quiesce(rig.Watchdog)
 		if !stopped {
@@ -275,6 +278,10 @@ func muxScenario(id string, seed uint64) runner.Result {
 		if r.Intn(7) == 0 {
 			c.short = true
 			all = all[:r.Intn(plen)]
+			// some of these clients do not hang up: they keep the connection open with a partial
+			// prefix on it. Once the multiplexer has stopped such a connection can never be
+			// delivered any more, so it has to be closed.
+			c.stall = r.Intn(2) == 0
 		}
 		c.sent = all
 		clients = append(clients, c)
@@ -297,6 +304,9 @@ func muxScenario(id string, seed uint64) runner.Result {
 					cl.pair.A.Write(all[pos:cut])
 					pos = cut
 				}
+			}
+			if cl.stall {
+				<-stallRelease
 			}
 			cl.pair.A.Close()
 			return nil, nil
@@ -374,7 +384,7 @@ func muxScenario(id string, seed uint64) runner.Result {
 		}
 		if len(ds) == 0 {
 			if c.pair.B.CloseCount() == 0 {
-				fails = append(fails, fmt.Sprintf("conn%d (prefix %q short=%v) was neither delivered to a listener nor closed", c.id, c.prefix, c.short))
+				fails = append(fails, fmt.Sprintf("conn%d (prefix %q short=%v keeps-connection-open=%v) was neither delivered to a listener nor closed although the multiplexer has stopped", c.id, c.prefix, c.short, c.stall))
 			}
 			continue
 		}
